@@ -445,30 +445,33 @@ def setLt (a b : VL) : Bool := sSubset a b && a.length < b.length
 
 /-! ### `mergeWith` -/
 
+/-- one entry `p` of the left dict against the right dict `d2` (`rec` merges nested dicts) -/
+def mergeStep (listMerge itemMerge : Value → Value → Value) (rec : KV → KV → Option KV) (lvl : Nat) (d2 : KV)
+    (acc : Option KV) (p : Value × Value) : Option KV :=
+  match acc with
+  | none => none
+  | some acc =>
+    match dGet d2 p.1 with
+    | none => some (acc ++ [p])
+    | some v2 =>
+      if lvl != 1 then
+        match v2, p.2 with
+        | dict e2, dict e1 => (rec e1 e2).map fun m => acc ++ [(p.1, dict m)]
+        | dict _, _ => none
+        | tuple _, tuple _ | tuple _, list _ | list _, tuple _ | list _, list _ =>
+          some (acc ++ [(p.1, listMerge p.2 v2)])
+        | tuple _, _ | list _, _ => none
+        | _, _ => some (acc ++ [(p.1, itemMerge p.2 v2)])
+      else some (acc ++ [(p.1, itemMerge p.2 v2)])
+
 /-- deep merge; `fuel` bounds the nesting depth (`fuel > depth` suffices); `lvl` is maxLevels
     (0 = unlimited). `none` = TypeError ("Cannot merge"). -/
 def mergeDicts (listMerge itemMerge : Value → Value → Value) : Nat → Nat → KV → KV → Option KV
   | 0, _, _, _ => none
   | fuel + 1, lvl, d1, d2 =>
-    let step (acc : Option KV) (p : Value × Value) : Option KV :=
-      match acc with
-      | none => none
-      | some acc =>
-        match dGet d2 p.1 with
-        | none => some (acc ++ [p])
-        | some v2 =>
-          if lvl != 1 then
-            match v2, p.2 with
-            | dict e2, dict e1 =>
-              (mergeDicts listMerge itemMerge fuel (if lvl = 0 then 0 else lvl - 1) e1 e2).map
-                fun m => acc ++ [(p.1, dict m)]
-            | dict _, _ => none
-            | tuple _, tuple _ | tuple _, list _ | list _, tuple _ | list _, list _ =>
-              some (acc ++ [(p.1, listMerge p.2 v2)])
-            | tuple _, _ | list _, _ => none
-            | _, _ => some (acc ++ [(p.1, itemMerge p.2 v2)])
-          else some (acc ++ [(p.1, itemMerge p.2 v2)])
-    (d1.foldl step (some [])).map fun r => r ++ d2.filter fun q => !dHas d1 q.1
+    (d1.foldl (mergeStep listMerge itemMerge
+        (mergeDicts listMerge itemMerge fuel (if lvl = 0 then 0 else lvl - 1)) lvl d2) (some [])).map
+      fun r => r ++ d2.filter fun q => !dHas d1 q.1
 
 /-! ### `memorize` (utils.py): a shared buffer in front of a one-shot source -/
 
